@@ -54,17 +54,17 @@ func init() {
 // unicode array and return it back to its caller.
 func reverse(s []byte) []byte {
 	cursorIn := 0
-	inputRunes := []rune(string(s))
 	cursorOut := len(s)
 	output := make([]byte, len(s))
-	for i := 0; i < len(inputRunes); {
-		wid := utf8.RuneLen(inputRunes[i])
-		i++
-		for i < len(inputRunes) {
-			r := inputRunes[i]
+	// walk the bytes themselves: converting to []rune first turns every
+	// invalid byte into U+FFFD, whose encoded length (3) is not the length
+	// of the byte it stands for, and the copy below ran out of bounds
+	for cursorIn < len(s) {
+		_, wid := utf8.DecodeRune(s[cursorIn:])
+		for cursorIn+wid < len(s) {
+			r, w := utf8.DecodeRune(s[cursorIn+wid:])
 			if unicode.Is(unicode.Mn, r) || unicode.Is(unicode.Me, r) || unicode.Is(unicode.Mc, r) {
-				wid += utf8.RuneLen(r)
-				i++
+				wid += w
 			} else {
 				break
 			}
